@@ -459,9 +459,14 @@ def run(ctx):
                 variants = [(None, v) for v in (None, "1.0", "2.0", "3.0")]
             if rt == "S":
                 variants = [("gfa1", None), ("gfa2", None)]
+            if rt == "#":
+                # a comment (like a header) belongs to both versions; an
+                # instance keeps the version of the Gfa it was parsed in or
+                # cloned from, which does not make it inadmissible elsewhere
+                variants = [(None, None), ("gfa1", None), ("gfa2", None)]
             for (lv, vn), vl, as_string in itertools.product(
                     variants, (0, 1), (False, True)):
-                if rt != "S":
+                if rt not in ("S", "#"):
                     lv = "gfa1" if rt in spec.GFA1_ONLY else (
                         "gfa2" if rt in spec.GFA2_ONLY + ["X"] else None)
                 ctx.instance(R)
@@ -497,7 +502,8 @@ def run(ctx):
                 line = made.get("line", arg)
                 ns = names(out[2])
                 cell = "gfa=%s,record=%s%s%s,vlevel=%d,%s" % (
-                    ver, rt, ",syntax=%s" % lv if rt == "S" else "",
+                    ver, rt, ",syntax=%s" % lv if rt == "S" else (
+                        ",line.version=%s" % lv if rt == "#" else ""),
                     ",VN=%s" % vn if rt == "H" else "", vl,
                     "string" if as_string else "instance")
                 refuse = False
